@@ -1,6 +1,7 @@
 \* C20 pipeline as coded at the pinned commit (unsupported encoding falls through to the rewrite): TLC must reject PassThroughIsIdentity.
 CONSTANTS
   UnsupportedRule = "rewrite"
+  CspRule = "policylist"
   LengthRule = "set"
   EmitCases = FALSE
 INIT Init
